@@ -2,6 +2,7 @@ CONSTANTS Menu = "C07"
  MaxTail = 1
  Layouts = {"siblings", "nested", "root"}
  AllPlants = FALSE
+ Lite = TRUE
  Flavours <- Flav_plain
 INIT HInit
 NEXT HNext
